@@ -7,8 +7,8 @@ import S3V.Spec.Secrets
 Two kinds of statement, labelled on each theorem:
 
 * **[table]** — SYNTACTIC obligations over `S3V/Gen/Emit.lean`, which `translate/emit_sites.py` regenerates
-  from the Rust sources on every run (all logging / printing / `#[instrument]` sites, all `.expose()` calls
-  with their data flow, the impls of `SecretKey`, every type that contains one).  They are decided by
+  from the Rust sources on every run (all logging / printing / error-message / formatting / `#[instrument]`
+  sites, all `.expose()` calls with their data flow, the impls of `SecretKey`, every type that contains one).  They are decided by
   kernel evaluation on the regenerated tables; an edit that adds a site, an `.expose()`, an impl, a derive
   re-opens them.
 * **[model]** — SEMANTIC theorems about the rendering and emission model of `S3V/Model/Secrets.lean`, for
@@ -85,9 +85,10 @@ theorem C16_renderings_do_not_disclose (hex b64 : Bytes → Bytes)
 
 /-! ## the site tables -/
 
-/-- **[table]** no logging / printing / `#[instrument]` site of the three crates captures an expression
-    that calls `.expose()`, mentions a name derived from an exposed secret in its function, or mentions a
-    `secret…`-named identifier that is not a parameter of a redacting type -/
+/-- **[table]** no logging (`trace!`…`error!`), printing (`println!`…), error-message (`s3_error!`,
+    `invalid_request!`, `try_!`, …), formatting (`format!`, `write!`, `panic!`, …) or `#[instrument]` site of the
+    three crates captures an expression that calls `.expose()`, mentions a name derived from an exposed secret in
+    its function, or mentions a `secret…`-named identifier that is not a parameter of a redacting type -/
 theorem C16_taint_sites_clean : ∀ site ∈ logSites, siteClean taintEnv site = true := by
   decide +kernel
 
